@@ -265,6 +265,14 @@ func TestC15(t *testing.T) {
 			st := store.New()
 			for i := 0; i < 24; i++ {
 				n := []int{0, 1, 2, 3, 5, 8, 13, 40}[rr.Intn(8)]
+				if i == 23 {
+					// one wide list per batch (wide nodes tempt implementations into indexes and caches)
+					n = []int{64, 200, 1024, 1025, 3000}[b%5]
+					if r.Quick() && n > 1100 {
+						n = 1100
+					}
+					c.Count("wide_lists", 1)
+				}
 				pool := []string{"a", "b", "c", "A", "", "dup", "dup", "z", "ä", "a b", "0", "10", "9", "aa", "ab", "B"}
 				var links []pbLinkSpec
 				for j := 0; j < n; j++ {
@@ -402,7 +410,18 @@ func TestC15(t *testing.T) {
 						st.FailReadAt = k
 						st.FailErr = store.ErrInjected
 						st.ResetLog()
-						c.Guard("Length with transient fault", func() { n2.Length() })
+						if k%2 == 1 {
+							c.Guard("Length with transient fault", func() { n2.Length() })
+						} else {
+							// ... nor a listing that carried on past the shard it could not load
+							c.Guard("listing with transient fault", func() {
+								it := n2.MapIterator()
+								for i := 0; !it.Done() && i < len(names)+len(shards)+8; i++ {
+									it.Next()
+								}
+							})
+							c.Count("transient_listing_faults", 1)
+						}
 						st.ClearFaults()
 						c.Count("transient_length_faults", 1)
 						checkMapContract(c, fmt.Sprintf("fanout-%d sharded directory (by the %s) after load #%d failed once during the first Length()", d.Fanout, writer, k), n2, nil, len(names)+8)
